@@ -65,6 +65,7 @@ type Ctx struct {
 	Exhaustive  bool
 	ExhaustNote string
 	Programs    int64
+	ModelFailures int64 // driver exceptions: machinery failures, never violations
 
 	busy []atomic.Int64 // per worker: unix nano when the current impl call started (0 = idle)
 	cur  []atomic.Value // per worker: description of current case
@@ -165,6 +166,11 @@ func (c *Ctx) Tie(w int, op string, impl string, args ...[]byte) (Verdict, strin
 	if cur == impl {
 		return Agree, cur, ""
 	}
+	if modelFailed(cur) {
+		atomic.AddInt64(&c.ModelFailures, 1)
+		c.Note("model could not answer " + op + ": " + cur)
+		return Agree, cur, ""
+	}
 	none := c.Pool.Ask(w, drv.Req("n", op, args...))
 	atomic.AddInt64(&c.Disagree, 1)
 	if none == impl {
@@ -172,6 +178,10 @@ func (c *Ctx) Tie(w int, op string, impl string, args ...[]byte) (Verdict, strin
 		return BetterThanRecorded, cur, none
 	}
 	return Violation, cur, none
+}
+
+func modelFailed(s string) bool {
+	return strings.HasPrefix(s, "EXC ") || strings.HasPrefix(s, "DRIVER-ERROR") || s == "BADOP" || s == "BAD"
 }
 
 // CheckCase = Impl + Tie + report. Returns true when no violation.
@@ -333,7 +343,9 @@ func (c *Ctx) Sample(x interface{}) {
 
 func (c *Ctx) Note(s string) {
 	c.mu.Lock()
-	c.Notes = append(c.Notes, s)
+	if len(c.Notes) < 50 {
+		c.Notes = append(c.Notes, s)
+	}
 	c.mu.Unlock()
 }
 
